@@ -38,6 +38,39 @@ var ClangVariants = [][]string{
 	{"-O2", "--target=i686-pc-windows-msvc"},
 }
 
+// SpecialVariants replace ClangVariants for sources that need their own language or target flags.
+var SpecialVariants = map[string][][]string{
+	"kernels.cl": {
+		{"-x", "cl", "-cl-std=CL2.0", "--target=spir64", "-O1"},
+		{"-x", "cl", "-cl-std=CL2.0", "--target=spir", "-O0", "-g"},
+		{"-x", "cl", "-cl-std=CL2.0", "--target=amdgcn-amd-amdhsa", "-nogpulib", "-O1"},
+		{"-x", "cl", "-cl-std=CL2.0", "--target=amdgcn-amd-amdhsa", "-nogpulib", "-O0", "-g"},
+		{"-x", "cl", "-cl-std=CL2.0", "--target=nvptx64-nvidia-cuda", "-O2"},
+	},
+	"objc.m": {
+		{"-x", "objective-c", "-fobjc-runtime=macosx", "-fblocks", "-fobjc-exceptions", "--target=x86_64-apple-macosx10.15", "-O1", "-g"},
+		{"-x", "objective-c", "-fobjc-runtime=macosx", "-fblocks", "-fobjc-exceptions", "-fobjc-arc", "--target=arm64-apple-ios13", "-O2"},
+		{"-x", "objective-c", "-fobjc-runtime=gnustep-2.0", "-fblocks", "-fobjc-exceptions", "-fobjc-arc", "-O1"},
+		{"-x", "objective-c", "-fobjc-runtime=gnustep-1.9", "-fblocks", "-fobjc-exceptions", "-O0", "-g"},
+	},
+	"coro.cpp": {
+		{"-x", "c++", "-std=c++20", "-O0"},
+		{"-x", "c++", "-std=c++20", "-O2"},
+		{"-x", "c++", "-std=c++20", "-O1", "-g"},
+	},
+	"omp.c": {
+		{"-x", "c", "-fopenmp", "-O0"},
+		{"-x", "c", "-fopenmp", "-O2"},
+		{"-x", "c", "-fopenmp", "-O1", "-g"},
+		{"-x", "c", "-fopenmp", "-O1", "--target=aarch64-linux-gnu"},
+	},
+	"simd.c": {
+		{"-x", "c", "-O0", "-march=skylake-avx512"},
+		{"-x", "c", "-O2", "-march=skylake-avx512"},
+		{"-x", "c", "-O2", "-g", "-march=skylake-avx512", "-ffast-math"},
+	},
+}
+
 // ClangCase is one (source, flags) pair.
 type ClangCase struct {
 	Src   string // file name under corpus/src
@@ -55,12 +88,20 @@ func verifRoot() string {
 
 // ClangCases lists every source x variant, in a fixed order.
 func ClangCases() []ClangCase {
-	ms, _ := filepath.Glob(filepath.Join(verifRoot(), "corpus", "src", "*.c*"))
+	ents, _ := os.ReadDir(filepath.Join(verifRoot(), "corpus", "src"))
+	var ms []string
+	for _, e := range ents {
+		ms = append(ms, e.Name())
+	}
 	sort.Strings(ms)
 	var out []ClangCase
 	for _, p := range ms {
-		for _, v := range ClangVariants {
-			out = append(out, ClangCase{Src: filepath.Base(p), Flags: v})
+		vs := ClangVariants
+		if sv, ok := SpecialVariants[p]; ok {
+			vs = sv
+		}
+		for _, v := range vs {
+			out = append(out, ClangCase{Src: p, Flags: v})
 		}
 	}
 	return out
@@ -81,12 +122,18 @@ func (c ClangCase) Text() string {
 	if t, err := os.ReadFile(cf); err == nil {
 		return string(t)
 	}
-	tool, std := "clang-14", []string{"-std=gnu11"}
+	tool := "clang-14"
 	if strings.HasSuffix(c.Src, ".cpp") {
-		tool, std = "clang++-14", []string{"-std=c++17"}
+		tool = "clang++-14"
 	}
-	args := append([]string{"-S", "-emit-llvm", "-w", "-o", "-", "-x"}, map[bool]string{true: "c++", false: "c"}[tool == "clang++-14"])
-	args = append(args, std...)
+	args := []string{"-S", "-emit-llvm", "-w", "-o", "-"}
+	if _, special := SpecialVariants[c.Src]; !special {
+		if tool == "clang++-14" {
+			args = append(args, "-x", "c++", "-std=c++17")
+		} else {
+			args = append(args, "-x", "c", "-std=gnu11")
+		}
+	}
 	args = append(args, c.Flags...)
 	args = append(args, src)
 	ctx, cancel := context.WithTimeout(context.Background(), 60*time.Second)
